@@ -39,6 +39,7 @@ def gen(run_seed: int, tier: str) -> dict:
     nh = 4 + t.draw(6, "healthy")
     world = cpool.gen_world(t, nh)
     offenders = []
+    heavy_used = False
     allow_blowup = t.chance(1, 3, "blowup_run") or bool(os.environ.get("VSIM_C11_FORCE_BLOWUP"))
     for i in range(1 + t.draw(3, "noff") if not t.chance(1, 2, "one") else 1):
         lang = t.pick(cpool.LANGS + ["python", "unknown"], "off.lang")
@@ -53,6 +54,12 @@ def gen(run_seed: int, tier: str) -> dict:
         fs, data = [], base.encode()
         for _ in range(1 + t.draw(4, "nfaults") if not t.chance(1, 2, "single") else 1):
             f = faults.draw_fault(t, data, lang, allow_blowup, force_blowup=bool(os.environ.get("VSIM_C11_FORCE_BLOWUP")))
+            if f["kind"] == "many_funcs":
+                # some analyzers of the pinned tree are super-linear in the number of functions (2400 tiny
+                # TypeScript functions: 255 s); one bounded dose per scenario keeps runs inside the watchdog
+                if heavy_used:
+                    continue
+                heavy_used = True
             fs.append(f)
             data = faults.apply(f, data, lang)
         offenders.append({"rel": rel, "lang": lang, "base": base, "faults": fs})
